@@ -84,7 +84,18 @@ def mutate(draw, d):
             opts += ["move-arg-to-deps"]
         if d.get("env") and d.get("depsfiles") and list(d["env"].items())[-1][1]:
             opts += ["move-env-to-deps"]
+    if not explicit:
+        opts += ["args-form"]
     o = draw(st.sampled_from(opts))
+    if o == "args-form":
+        # the same text once as a ONE-ELEMENT LIST (the file of that name is executed) and once as a STRING
+        # (handed to /bin/sh -c): different commands
+        w = draw(st.sampled_from(["/bin/true", "/bin/true a b", "./tool x"]))
+        d["args"] = [w]
+        m = copy.deepcopy(d)
+        m.pop("args")
+        m["args_str"] = w
+        return m, o
     used = set(d["inputs"]) | set(d["outputs"])
     free = [n for n in ["n1", "n2", "n3", "d/n4", "n5", "<v1>", "<v2>", "n6"] if n not in used]
     if o == "name":
@@ -205,7 +216,10 @@ def write_single(ws, d, filename="build.llbuild"):
         L.append("    description: %s" % bm.yq(d["description"]))
     L.append("    inputs: [%s]" % ", ".join(bm.yq(n) for n in d["inputs"]))
     L.append("    outputs: [%s]" % ", ".join(bm.yq(n) for n in d["outputs"]))
-    L.append("    args: [%s]" % ", ".join(bm.yq(a) for a in d["args"]))
+    if d.get("args_str") is not None:
+        L.append("    args: %s" % bm.yq(d["args_str"]))
+    else:
+        L.append("    args: [%s]" % ", ".join(bm.yq(a) for a in d["args"]))
     if d.get("env") is not None:
         L.append("    env:")
         if not d["env"]:
@@ -259,7 +273,7 @@ def run_case(case, ctx, verbose=False):
                 what = case["what"]
                 cls = ["pair", "pair:" + what]
                 nt = what in ("arg-boundary", "move-in-to-out", "move-out-to-in", "move-args-to-env", "move-arg-to-deps",
-                              "move-env-to-deps")
+                              "move-env-to-deps", "args-form")
                 if what == "description":
                     if sa != sb:
                         return Outcome("changing only the description changed the signature (%d -> %d)" % (sa, sb),
